@@ -55,7 +55,7 @@ def gen_history(ctx, hid, sc, nops):
         op = rng.choice(choices)
         if op == "read" and nexth < 60:
             kind = rng.choice(["dna", "protein", "rna"])
-            recs = gen.family(rng, kind, rng.randint(2, 9), rng.choice([8, 40, 120, 520]), sub=0.15, indel=0.06)
+            recs = gen.family(rng, kind, rng.randint(2, 9), rng.choice([8, 40, 120, 520, 700, 1100]), sub=0.15, indel=0.06)      # incl. rows beyond 512 / 1024 residues (the per-sequence buffers grow in steps of 512)
             if rng.random() < 0.12:
                 # the k-means guide-tree path (>= 100 sequences) has allocations of its own
                 recs = gen.family(rng, kind, rng.choice([100, 130, 180, 260]), rng.choice([25, 50]), sub=0.25, indel=0.08, spice=False)
